@@ -16,7 +16,7 @@ static BUFR_Template *slot[NSLOT];
 void tmpltext_reset(void)
    {
    int i;
-   for (i = 0; i < NSLOT; i++) { if (slot[i]) bufr_free_template(slot[i]); slot[i] = NULL; }
+   for (i = 0; i < NSLOT; i++) { if (slot[i] && !bvp_poisoned) bufr_free_template(slot[i]); slot[i] = NULL; }
    }
 
 static int slot_no(const char *s)
